@@ -247,6 +247,8 @@ def open_finding(pid, key):
 # evidence
 
 def write_evidence(pid, tier, seed, coverage, wall, violations, assumptions):
+    if os.path.abspath(REPO) != "/repo":
+        return      # development run against a scratch checkout (VERIF_REPO): evidence describes /repo only
     os.makedirs(EVIDENCE, exist_ok=True)
     ev = {"property_id": pid, "tier": tier, "seed": seed, "level": "model_checking",
           "coverage": coverage, "assumptions": assumptions, "wall_s": round(wall, 1),
@@ -442,7 +444,7 @@ def main(argv):
         return 2
     os.makedirs(WORK, exist_ok=True)
     t0 = time.time()
-    workdir = os.path.join(WORK, pid)
+    workdir = os.path.join(WORK, "%s_%d" % (pid, os.getpid()))     # per process: checks may run side by side
     shutil.rmtree(workdir, ignore_errors=True)
     os.makedirs(workdir, exist_ok=True)
     try:
@@ -466,7 +468,9 @@ def main(argv):
             pass
         log("violation: %s" % v.what)
         log("VIOLATION property=%s replay=%s" % (v.pid, v.replay))
+        shutil.rmtree(workdir, ignore_errors=True)
         return 1
     except ToolError as te:
         log("TOOL-ERROR: %s" % te)
+        shutil.rmtree(workdir, ignore_errors=True)
         return 2
